@@ -4,7 +4,7 @@ PROP = dict(
         # monitors of the C03 clauses + every model/implementation mismatch; the renewal/* monitors belong to C13
         flag_filter=r"^(?!renewal/)",
         quick=dict(n=480, len=40, shards=8, timeout=300),
-        thorough=dict(n=16000, len=60, shards=16, timeout=1500),
+        thorough=dict(n=12000, len=60, shards=16, timeout=1500),
         nontrivial=r"^(rpc1|rev2) .*res=ok", min_ops=8, min_kinds=3,
         shrink_budget=80,
         trusted_base=COMMON_TB + [
